@@ -252,6 +252,71 @@ RT_EFC = ("efc_pos", "efc_margin", "efc_D", "efc_aref", "efc_force", "efc_fricti
 RT_CON = ("dist", "pos", "frame", "includemargin", "friction", "solref", "solimp", "dim", "geom", "efc_address")
 
 
+SNAP_PUBLIC = ("qpos", "qvel", "act", "ctrl", "qacc", "xpos", "xquat", "xmat", "geom_xpos", "qfrc_bias", "qfrc_passive", "qacc_warmstart", "time",
+               "mocap_pos", "sensordata", "subtree_com", "cvel")
+
+
+def snapshot_checks(out):
+    """put_data / get_data / put_model / make_data return SNAPSHOTS: changing the source object afterwards (stepping the MjData, writing its arrays,
+    mj_resetData; writing MjModel arrays) must not change the mjx object, and changing what get_data returned must not change the mjx.Data"""
+    xml = """<mujoco><option timestep="0.01"/><worldbody><geom type="plane" size="5 5 .1"/>
+      <body name="mc" mocap="true" pos="1 2 3"><geom size="0.05" contype="0" conaffinity="0"/></body>
+      <body pos="0 0 0.3"><freejoint/><geom size="0.1"/><body pos="0.3 0 0"><joint name="h" type="hinge" axis="0 1 0" damping="0.1"/><geom type="capsule" size="0.04 0.1"/></body></body>
+      </worldbody><actuator><general joint="h" dyntype="integrator" gainprm="1"/></actuator>
+      <sensor><jointpos joint="h"/><framepos objtype="body" objname="mc"/></sensor></mujoco>"""
+    m = mujoco.MjModel.from_xml_string(xml)
+    d = mujoco.MjData(m)
+    d.qvel[:] = 0.1 * np.arange(1, m.nv + 1); d.ctrl[:] = 0.7; d.act[:] = 0.2
+    mujoco.mj_step(m, d, 3)
+
+    def grab(dx):
+        return {f: np.array(getattr(dx, f), copy=True) for f in SNAP_PUBLIC if hasattr(dx, f)}
+
+    def diff(a, b):
+        return [f for f in a if a[f].shape != b[f].shape or not np.array_equal(a[f], b[f], equal_nan=True)]
+
+    def add(name, what, bad):
+        out["checks"].append({"kind": "snapshot", "model": name, "what": what, "diff": 0.0 if not bad else float("inf"), "where": ",".join(bad[:10]), "tol": 0.0,
+                              "ok": not bad, "mjcf": xml, "state": {"qpos": d.qpos.tolist()}, "nontrivial": True})
+    # 1. put_data, then the source MjData keeps running
+    for mutate in ("mj_step x5", "write arrays", "mj_resetData"):
+        d1 = mujoco.MjData(m)
+        d1.qvel[:] = 0.1 * np.arange(1, m.nv + 1); d1.ctrl[:] = 0.7
+        mujoco.mj_step(m, d1, 3)
+        dx = mjx.put_data(m, d1)
+        before = grab(dx)
+        if mutate == "mj_step x5":
+            mujoco.mj_step(m, d1, 5)
+        elif mutate == "write arrays":
+            d1.qpos[:] += 1.0; d1.qvel[:] = -3.0; d1.xpos[:] = 7.0; d1.ctrl[:] = 0.0; d1.mocap_pos[:] = 9.0; d1.time = 55.0
+        else:
+            mujoco.mj_resetData(m, d1)
+        jax.block_until_ready(dx)
+        add("snapshot_put_data", "mjx.Data returned by put_data, after the source MjData was changed by: " + mutate, diff(before, grab(dx)))
+    # 2. get_data: changing the result must not change the mjx.Data, nor a second get_data
+    dx = mjx.put_data(m, d)
+    before = grab(dx)
+    d2 = mjx.get_data(m, dx)
+    d2.qpos[:] += 2.0; d2.xpos[:] = -1.0; d2.qvel[:] = 4.0
+    mujoco.mj_step(m, d2, 2)
+    add("snapshot_get_data", "mjx.Data after the MjData returned by get_data was written and stepped", diff(before, grab(dx)))
+    # 3. put_model: changing the MjModel afterwards must not change the mjx.Model
+    m2 = mujoco.MjModel.from_xml_string(xml)
+    mx = mjx.put_model(m2)
+    mf = ("body_mass", "body_pos", "dof_damping", "geom_size", "qpos0", "actuator_gainprm", "jnt_axis")
+    mb = {f: np.array(getattr(mx, f), copy=True) for f in mf}
+    m2.body_mass[:] *= 3.0; m2.body_pos[:] += 1.0; m2.dof_damping[:] = 5.0; m2.geom_size[:] *= 2.0; m2.qpos0[:] += 0.5; m2.actuator_gainprm[:] = 9.0; m2.jnt_axis[:] = 0.0
+    jax.block_until_ready(mx)
+    add("snapshot_put_model", "mjx.Model after the source MjModel arrays were written", [f for f in mf if not np.array_equal(mb[f], np.array(getattr(mx, f)))])
+    # 4. make_data: does not alias the model's qpos0 / mocap arrays
+    m3 = mujoco.MjModel.from_xml_string(xml)
+    dm = mjx.make_data(m3)
+    b3 = grab(dm)
+    m3.qpos0[:] += 1.0; m3.body_pos[:] += 2.0
+    jax.block_until_ready(dm)
+    add("snapshot_make_data", "mjx.Data of make_data after the MjModel arrays were written", diff(b3, grab(dm)))
+
+
 def known_counts(out):
     """fixed replay of KNOWN finding C44-F3: get_data writes MJX's STATIC row counts into ne / nf / nl while nefc and the efc arrays hold the
     ACTIVE rows.  exactly_this_class: nefc, ncon and every efc array come back unchanged, the returned counts are MJX's static counts and
@@ -406,6 +471,7 @@ def mode_oracle(req):
     out = {"wheel_version": mujoco.__version__, "checks": [], "notes": []}
     roundtrip_corpus(out, req.get("quick", False))
     roundtrip_sizes(out, req.get("quick", False))
+    snapshot_checks(out)
     try:
         roundtrip_known(out)
         known_counts(out)
